@@ -1,20 +1,57 @@
 import JoblibModel.FuncCode
 import JoblibProofs.Lemmas.FilterArgs
-/-! Helper lemmas and specification predicates for C12 (`JoblibModel.FuncCode`). Core Lean only. -/
+/-! Helper lemmas and specification predicates for C12 (`JoblibModel.FuncCode`). Core Lean only.
+
+Plan: the single-location invariant of the F10 repair is a predicate on a CELL — what one directory
+holds (`func_code.py`, the entries) together with the writer slot of that directory
+(`CellInv`).  The state invariant `Inv` is `CellInv` of every directory's cell, plus, for every
+wrapper, "its writer key is the slot of its directory".  A step through a wrapper at directory `d`
+rewrites the cell of `d` as the single-location step did and leaves every other cell alone (it only
+touches `table`, `live`, `wraps` besides). -/
 namespace JoblibModel.FuncCode
 open JoblibModel.FilterArgs (dget dset dget_dset_self dget_dset_ne)
 
 variable {R : Type}
 
+/-! ## dictionaries -/
+
+theorem dget_ddel_self {ν : Type} (k : Nat) (d : List (Nat × ν)) : dget k (ddel k d) = none := by
+  induction d with
+  | nil => rfl
+  | cons x r ih =>
+    obtain ⟨k', v⟩ := x
+    by_cases h : k' = k
+    · simp [ddel, h, ih]
+    · simp [ddel, dget, h, ih]
+
+theorem dget_ddel_ne {ν : Type} {k k' : Nat} (h : k' ≠ k) (d : List (Nat × ν)) :
+    dget k' (ddel k d) = dget k' d := by
+  induction d with
+  | nil => rfl
+  | cons x r ih =>
+    obtain ⟨k'', v⟩ := x
+    by_cases h1 : k'' = k
+    · subst h1
+      simp [ddel, dget, Ne.symm h, ih]
+    · by_cases h2 : k'' = k'
+      · subst h2; simp [ddel, dget, h1]
+      · simp [ddel, dget, h1, h2, ih]
+
+theorem dget_dset_cases {κ ν : Type} [DecidableEq κ] {k k' : κ} {v w : ν} {d : List (κ × ν)}
+    (h : dget k' (dset k v d) = some w) : (k' = k ∧ w = v) ∨ (k' ≠ k ∧ dget k' d = some w) := by
+  by_cases e : k' = k
+  · subst e; rw [dget_dset_self] at h; cases h; exact .inl ⟨rfl, rfl⟩
+  · rw [dget_dset_ne e] at h; exact .inr ⟨e, h⟩
+
 /-! ## specification predicates -/
 
 /-- What the property demands of one step: a call through a live wrapper whose function's CURRENT
 code object has source `k` returns the value the code `k` computes on that argument (whether
-served from the cache or executed). -/
+served from the cache or executed), at whatever location the wrapper caches. -/
 def Correct (sem : Src → Nat → R) (st : State R) : Op → Out R → Prop
   | .call w a, out =>
     match lookup st w with
-    | some (_, cur, _, _) => out = .value (sem cur.2 a) false ∨ out = .value (sem cur.2 a) true
+    | some t => out = .value (sem t.cur.2 a) false ∨ out = .value (sem t.cur.2 a) true
     | none => out = .notLive
   | _, _ => True
 
@@ -24,29 +61,58 @@ def AllCorrect (cfg : Cfg) (sem : Src → Nat → R) : State R → List Op → P
   | st, op :: ops =>
     Correct sem st op (step cfg sem st op).1 ∧ AllCorrect cfg sem (step cfg sem st op).2 ops
 
-/-- The step does not DELETE `func_code.py` (truncations are allowed). -/
+/-- The step does not DELETE a `func_code.py` (truncations are allowed). -/
 def NoDelete : Op → Prop
-  | .damage .delete => False
+  | .damage _ .delete => False
   | _ => True
 
-/-- An operation that does not clear or damage anything and mentions no other source text than `k`. -/
-def Quiet (k : Src) : Op → Prop
-  | .define _ k' _ => k' = k
-  | .wrap _ _ => True
+/-- Every `Memory` object addresses its directory under the directory's one canonical spelling
+(`Memory(d)` and `Memory(d + "/.")` are not both used): the writer key of a new wrapper is the slot
+of its directory. -/
+def Canonical : Op → Prop
+  | .wrap _ _ key dir => key = dir
+  | _ => True
+
+/-- The same for any version of the code: the writer key of a new wrapper is the slot of its
+directory (always so once the key is the resolved directory). -/
+def KeyOK (cfg : Cfg) : Op → Prop
+  | .wrap _ _ key dir => wkey cfg key dir = dir
+  | _ => True
+
+/-- The step does not touch `func_code.py` of directory `d` from outside. -/
+def NoDamageAt (d : Loc) : Op → Prop
+  | .damage d' _ => d' ≠ d
+  | _ => True
+
+/-- An operation that clears or damages nothing AT DIRECTORY `d` and mentions no other source text
+than `k` (other directories may be cleared with `Memory.clear()`, their `func_code.py` truncated, at
+will). -/
+def QuietAt (k : Src) (d : Loc) : Op → Prop
+  | .define _ k' _ _ => k' = k
+  | .wrap _ _ key dir => key = dir
   | .swap _ c => c.2 = k
   | .call _ _ => True
   | .check _ _ => True
   | .fresh => True
   | .clearFn _ => False
-  | .clearAll => False
-  | .damage _ => False
+  | .clearAll d' => d' ≠ d
+  | .damage d' dm => d' ≠ d ∧ dm ≠ .delete
 
 instance (op : Op) : Decidable (NoDelete op) := by
   cases op <;> simp only [NoDelete] <;> try exact inferInstance
   rename_i d; cases d <;> exact inferInstance
 
-instance (k : Src) (op : Op) : Decidable (Quiet k op) := by
-  cases op <;> simp only [Quiet] <;> exact inferInstance
+instance (op : Op) : Decidable (Canonical op) := by
+  cases op <;> simp only [Canonical] <;> exact inferInstance
+
+instance (cfg : Cfg) (op : Op) : Decidable (KeyOK cfg op) := by
+  cases op <;> simp only [KeyOK] <;> exact inferInstance
+
+instance (d : Loc) (op : Op) : Decidable (NoDamageAt d op) := by
+  cases op <;> simp only [NoDamageAt] <;> exact inferInstance
+
+instance (k : Src) (d : Loc) (op : Op) : Decidable (QuietAt k d op) := by
+  cases op <;> simp only [QuietAt] <;> exact inferInstance
 
 instance [DecidableEq R] (sem : Src → Nat → R) (st : State R) (op : Op) (out : Out R) :
     Decidable (Correct sem st op out) := by
@@ -60,32 +126,75 @@ instance instDecidableAllCorrect [DecidableEq R] (cfg : Cfg) (sem : Src → Nat 
     have := instDecidableAllCorrect cfg sem (step cfg sem st op).2 ops
     show Decidable (_ ∧ _) from inferInstance
 
-/-! ## the invariant of the repaired code -/
+/-- The versions of the code the theorems are about: F10 and F38 repaired, the writer key names the
+location. -/
+structure Good (cfg : Cfg) : Prop where
+  wc : cfg.writerCheck = true
+  iu : cfg.infoIdUpdate = true
+  kl : cfg.writerKeyHasLocation = true
+
+theorem good_fixed : Good Cfg.fixed := ⟨rfl, rfl, rfl⟩
+theorem good_resolved : Good Cfg.resolved := ⟨rfl, rfl, rfl⟩
+
+theorem wkey_self {cfg : Cfg} (hg : Good cfg) (l : Loc) : wkey cfg l l = l := by
+  simp [wkey, hg.kl]
+
+theorem keyOK_of_canonical {op : Op} (h : Canonical op) : KeyOK Cfg.fixed op := by
+  cases op <;> simp_all [Canonical, KeyOK, wkey, Cfg.fixed]
+
+theorem keyOK_resolved (op : Op) : KeyOK Cfg.resolved op := by
+  cases op <;> simp [KeyOK, wkey, Cfg.resolved]
+
+/-! ## cells: one directory and its writer slot -/
+
+/-- What directory `d` holds, and the writer recorded for it. -/
+structure Cell (R : Type) where
+  code : CodeFile
+  entries : List (Nat × R)
+  writer : Option (Obj × CodeId)
+
+def cell (st : State R) (d : Loc) : Cell R :=
+  ⟨(dirAt st d).code, (dirAt st d).entries, dget d st.writers⟩
+
+/-- * no `func_code.py` ⇒ no entry in the function's directory, no recorded writer;
+* every entry holds the value the STORED source computes, and the value the recorded writer's code
+  computes; the two agree. -/
+structure CellInv (sem : Src → Nat → R) (c : Cell R) : Prop where
+  missing : c.code = .missing → c.entries = [] ∧ c.writer = none
+  stored : ∀ s, c.code = .ok s → ∀ a r, dget a c.entries = some r → r = sem s a
+  writer : ∀ o k, c.writer = some (o, k) → ∀ a r, dget a c.entries = some r → r = sem k.2 a
+  agree : ∀ s o k, c.code = .ok s → c.writer = some (o, k) → k.2 = s
 
 /-- A wrapper's cached source belongs to the code object recorded with it. -/
 def InfoOK (ic : InfoCache) : Prop :=
   (ic.1 = none → ic.2 = none) ∧ ∀ c s, ic.1 = some c → ic.2 = some s → s = c.2
 
-/-- * no `func_code.py` ⇒ no entry in the function's directory, no recorded writer;
-* every entry holds the value the STORED source computes, and the value the recorded writer's code
-  computes; the two agree;
-* every wrapper's cached source is the source of the code object recorded with it. -/
-structure Inv (sem : Src → Nat → R) (st : State R) : Prop where
-  missing : st.code = .missing → st.entries = [] ∧ st.writer = none
-  stored : ∀ s, st.code = .ok s → ∀ a r, dget a st.entries = some r → r = sem s a
-  writer : ∀ o c, st.writer = some (o, c) → ∀ a r, dget a st.entries = some r → r = sem c.2 a
-  agree : ∀ s o c, st.code = .ok s → st.writer = some (o, c) → c.2 = s
-  wraps : ∀ w o ic, dget w st.wraps = some (o, ic) → InfoOK ic
+/-- The invariant of the repaired code, per location: every directory's cell has `CellInv`; every
+wrapper's cached source is the source of the code object recorded with it, and its writer key is
+the slot of its directory. -/
+structure Inv (cfg : Cfg) (sem : Src → Nat → R) (st : State R) : Prop where
+  dirs : ∀ d, CellInv sem (cell st d)
+  wraps : ∀ w W, dget w st.wraps = some W → InfoOK W.ic ∧ wkey cfg W.key W.dir = W.dir
 
-theorem inv_init (sem : Src → Nat → R) : Inv sem (init : State R) :=
-  ⟨fun _ => ⟨rfl, rfl⟩, fun s h => by simp [init] at h, fun o c h => by simp [init] at h,
-    fun s o c h => by simp [init] at h, fun w o ic h => by simp [init, dget] at h⟩
+/-- The two facts about a resolved wrapper the proofs use. -/
+def TOK (cfg : Cfg) (t : Target) : Prop := InfoOK t.ic ∧ wkey cfg t.key t.dir = t.dir
+
+theorem cellInv_empty (sem : Src → Nat → R) : CellInv sem (⟨.missing, [], none⟩ : Cell R) :=
+  ⟨fun _ => ⟨rfl, rfl⟩, fun s h => (by cases h), fun o k h => (by cases h), fun s o k h => (by cases h)⟩
+
+theorem CellInv.dropWriter {sem : Src → Nat → R} {c : Cell R} (h : CellInv sem c) :
+    CellInv sem ⟨c.code, c.entries, none⟩ :=
+  ⟨fun hm => ⟨(h.missing hm).1, rfl⟩, h.stored, fun o k hw => (by cases hw), fun s o k _ hw => (by cases hw)⟩
+
+theorem inv_init (cfg : Cfg) (sem : Src → Nat → R) : Inv cfg sem (init : State R) :=
+  ⟨fun _ => cellInv_empty sem, fun w W h => by simp [init, dget] at h⟩
 
 theorem infoOK_none : InfoOK (none, none) := ⟨fun _ => rfl, fun c s h => by cases h⟩
 
 /-- The repaired `func_code_info` returns the source of the CURRENT code object. -/
-theorem funcCodeInfo_fixed {cur : CodeId} {ic : InfoCache} (h : InfoOK ic) :
-    (funcCodeInfo Cfg.fixed cur ic).1 = cur.2 ∧ InfoOK (funcCodeInfo Cfg.fixed cur ic).2 := by
+theorem funcCodeInfo_fixed {cfg : Cfg} (hiu : cfg.infoIdUpdate = true) {cur : CodeId} {ic : InfoCache}
+    (h : InfoOK ic) :
+    (funcCodeInfo cfg cur ic).1 = cur.2 ∧ InfoOK (funcCodeInfo cfg cur ic).2 := by
   obtain ⟨i1, i2⟩ := ic
   obtain ⟨h1, h2⟩ := h
   simp only at h1 h2
@@ -103,148 +212,245 @@ theorem funcCodeInfo_fixed {cur : CodeId} {ic : InfoCache} (h : InfoOK ic) :
         have := h2 c0 s rfl rfl
         subst this
         simp [funcCodeInfo, InfoOK]
-    · simp [funcCodeInfo, e, Cfg.fixed, InfoOK]
+    · simp [funcCodeInfo, e, hiu, InfoOK]
 
-theorem wraps_dset {st : State R} (hw : ∀ w o ic, dget w st.wraps = some (o, ic) → InfoOK ic)
-    (w : Nat) (o : Obj) {ic : InfoCache} (hic : InfoOK ic) :
-    ∀ w' o' ic', dget w' (dset w (o, ic) st.wraps) = some (o', ic') → InfoOK ic' := by
-  intro w' o' ic' h
+theorem wraps_dset {cfg : Cfg} {st : State R}
+    (hw : ∀ w W, dget w st.wraps = some W → InfoOK W.ic ∧ wkey cfg W.key W.dir = W.dir)
+    (w : Nat) {W : Wrapper} (hW : InfoOK W.ic ∧ wkey cfg W.key W.dir = W.dir) :
+    ∀ w' W', dget w' (dset w W st.wraps) = some W' → InfoOK W'.ic ∧ wkey cfg W'.key W'.dir = W'.dir := by
+  intro w' W' h
   by_cases e : w' = w
-  · subst e; rw [dget_dset_self] at h; cases h; exact hic
-  · rw [dget_dset_ne e] at h; exact hw w' o' ic' h
+  · subst e; rw [dget_dset_self] at h; cases h; exact hW
+  · rw [dget_dset_ne e] at h; exact hw w' W' h
 
 /-- After the code check the directory belongs to the current code object's source. -/
-structure Post (sem : Src → Nat → R) (st : State R) (cur : CodeId) : Prop where
-  vals : ∀ a r, dget a st.entries = some r → r = sem cur.2 a
-  code : ∀ s, st.code = .ok s → s = cur.2
-  wr : ∀ o c, st.writer = some (o, c) → c.2 = cur.2
-  present : st.code ≠ .missing
+structure Post (sem : Src → Nat → R) (c : Cell R) (cur : CodeId) : Prop where
+  vals : ∀ a r, dget a c.entries = some r → r = sem cur.2 a
+  code : ∀ s, c.code = .ok s → s = cur.2
+  wr : ∀ o k, c.writer = some (o, k) → k.2 = cur.2
+  present : c.code ≠ .missing
 
-theorem inv_write {sem : Src → Nat → R} {st : State R} (he : st.entries = [])
-    (hw : ∀ w o ic, dget w st.wraps = some (o, ic) → InfoOK ic) (o : Obj) (cur : CodeId) (named : Bool) :
-    Inv sem (writeFuncCode st o cur cur.2 named) ∧ Post sem (writeFuncCode st o cur cur.2 named) cur := by
-  refine ⟨⟨fun h => by simp [writeFuncCode] at h, fun s _ a r h => ?_, fun o' c _ a r h => ?_,
-    fun s o' c h1 h2 => ?_, hw⟩, ⟨fun a r h => ?_, fun s h => ?_, fun o' c h => ?_, by simp [writeFuncCode]⟩⟩
-  · simp [writeFuncCode, he, dget] at h
-  · simp [writeFuncCode, he, dget] at h
-  · cases named <;> simp [writeFuncCode] at h1 h2
+/-- A freshly written function directory. -/
+theorem cellInv_written (sem : Src → Nat → R) (o : Obj) (cur : CodeId) (named : Bool) :
+    CellInv sem (⟨.ok cur.2, [], if named then some (o, cur) else none⟩ : Cell R) ∧
+      Post sem (⟨.ok cur.2, [], if named then some (o, cur) else none⟩ : Cell R) cur := by
+  refine ⟨⟨fun h => (by cases h), fun s _ a r h => by simp [dget] at h, fun o' k _ a r h => by simp [dget] at h,
+    fun s o' k h1 h2 => ?_⟩, ⟨fun a r h => by simp [dget] at h, fun s h => ?_, fun o' k h => ?_, by simp⟩⟩
+  · cases named <;> simp at h1 h2
     obtain ⟨_, rfl⟩ := h2; exact h1
-  · simp [writeFuncCode, he, dget] at h
-  · simp [writeFuncCode] at h; exact h.symm
-  · cases named <;> simp [writeFuncCode] at h
+  · simp at h; exact h.symm
+  · cases named <;> simp at h
     obtain ⟨_, rfl⟩ := h; rfl
 
+/-! ## `_write_func_code`, `clear`: the cell of the wrapper's directory, and the frame -/
+
+theorem dirAt_write_ne (cfg : Cfg) (st : State R) (t : Target) (src : Src) {d : Loc} (h : d ≠ t.dir) :
+    dirAt (writeFuncCode cfg st t src) d = dirAt st d := by
+  simp [writeFuncCode, dirAt, dget_dset_ne h]
+
+theorem dirAt_clearWrite_ne (cfg : Cfg) (st : State R) (t : Target) (src : Src) {d : Loc} (h : d ≠ t.dir) :
+    dirAt (clearWrite cfg st t src) d = dirAt st d := by
+  simp [clearWrite, writeFuncCode, dirAt, dget_dset_ne h]
+
+theorem cell_write {cfg : Cfg} (st : State R) {t : Target} (hk : wkey cfg t.key t.dir = t.dir) (src : Src) :
+    cell (writeFuncCode cfg st t src) t.dir =
+      ⟨.ok src, (dirAt st t.dir).entries, if t.named then some (t.o, t.cur) else none⟩ := by
+  cases hn : t.named <;> simp [cell, writeFuncCode, dirAt, hk, hn, dget_dset_self, dget_ddel_self]
+
+theorem cell_write_ne {cfg : Cfg} (st : State R) {t : Target} (hk : wkey cfg t.key t.dir = t.dir) (src : Src)
+    {d : Loc} (h : d ≠ t.dir) : cell (writeFuncCode cfg st t src) d = cell st d := by
+  cases hn : t.named <;>
+    simp [cell, writeFuncCode, dirAt, hk, hn, dget_dset_ne h, dget_ddel_ne h]
+
+theorem cell_clearWrite {cfg : Cfg} (st : State R) {t : Target} (hk : wkey cfg t.key t.dir = t.dir) (src : Src) :
+    cell (clearWrite cfg st t src) t.dir =
+      ⟨.ok src, [], if t.named then some (t.o, t.cur) else none⟩ := by
+  rw [clearWrite, cell_write _ hk]
+  simp [dirAt, dget_dset_self]
+
+theorem cell_clearWrite_ne {cfg : Cfg} (st : State R) {t : Target} (hk : wkey cfg t.key t.dir = t.dir) (src : Src)
+    {d : Loc} (h : d ≠ t.dir) : cell (clearWrite cfg st t src) d = cell st d := by
+  rw [clearWrite, cell_write_ne _ hk _ h]
+  simp [cell, dirAt, dget_dset_ne h]
+
+/-- Writing the CURRENT source into an entry-less directory (first use, or after `clear_path`). -/
+theorem inv_write {cfg : Cfg} {sem : Src → Nat → R} {st : State R} {t : Target}
+    (hd : ∀ d, d ≠ t.dir → CellInv sem (cell st d))
+    (hw : ∀ w W, dget w st.wraps = some W → InfoOK W.ic ∧ wkey cfg W.key W.dir = W.dir)
+    (hk : wkey cfg t.key t.dir = t.dir) (he : (dirAt st t.dir).entries = []) :
+    Inv cfg sem (writeFuncCode cfg st t t.cur.2) ∧
+      Post sem (cell (writeFuncCode cfg st t t.cur.2) t.dir) t.cur := by
+  have hc := cell_write st hk t.cur.2
+  rw [he] at hc
+  refine ⟨⟨fun d => ?_, hw⟩, ?_⟩
+  · by_cases e : d = t.dir
+    · subst e; rw [hc]; exact (cellInv_written sem t.o t.cur t.named).1
+    · rw [cell_write_ne st hk _ e]; exact hd d e
+  · rw [hc]; exact (cellInv_written sem t.o t.cur t.named).2
+
+theorem inv_clearWrite {cfg : Cfg} {sem : Src → Nat → R} {st : State R} {t : Target}
+    (hd : ∀ d, d ≠ t.dir → CellInv sem (cell st d))
+    (hw : ∀ w W, dget w st.wraps = some W → InfoOK W.ic ∧ wkey cfg W.key W.dir = W.dir)
+    (hk : wkey cfg t.key t.dir = t.dir) :
+    Inv cfg sem (clearWrite cfg st t t.cur.2) ∧
+      Post sem (cell (clearWrite cfg st t t.cur.2) t.dir) t.cur := by
+  unfold clearWrite
+  refine inv_write (fun d e => ?_) hw hk (by simp [dirAt, dget_dset_self])
+  have : cell { st with disk := dset t.dir {} st.disk } d = cell st d := by
+    simp [cell, dirAt, dget_dset_ne e]
+  rw [this]; exact hd d e
+
 /-- The repaired shortcut is sound: the directory belongs to this code object. -/
-theorem shortcut_post {sem : Src → Nat → R} {st : State R} (hi : Inv sem st) {o : Obj} {cur : CodeId}
-    (h : shortcut Cfg.fixed st o cur = true) : Post sem st cur := by
+theorem shortcut_post {cfg : Cfg} (hg : Good cfg) {sem : Src → Nat → R} {st : State R}
+    (hi : Inv cfg sem st) {t : Target} (hk : wkey cfg t.key t.dir = t.dir)
+    (h : shortcut cfg st t = true) : Post sem (cell st t.dir) t.cur := by
   unfold shortcut at h
   split at h
-  · simp [Cfg.fixed] at h
+  · simp [hg.wc, hk] at h
     obtain ⟨_, hw⟩ := h
-    refine ⟨hi.writer o cur hw, fun s hs => (hi.agree s o cur hs hw).symm, fun o' c hc => ?_, fun hm => ?_⟩
-    · rw [hw] at hc; cases hc; rfl
-    · have := (hi.missing hm).2; rw [hw] at this; cases this
+    have hw' : (cell st t.dir).writer = some (t.o, t.cur) := hw
+    have hc := hi.dirs t.dir
+    refine ⟨hc.writer t.o t.cur hw', fun s hs => (hc.agree s t.o t.cur hs hw').symm, fun o' k hk' => ?_, fun hm => ?_⟩
+    · rw [hw'] at hk'; cases hk'; rfl
+    · have := (hc.missing hm).2; rw [hw'] at this; cases this
   · simp at h
 
 /-- `_check_previous_func_code` (repaired): the invariant is kept, the live functions are
-untouched, and afterwards the directory belongs to the current code object's source. -/
-theorem checkPrevious_spec {sem : Src → Nat → R} {st : State R} (hi : Inv sem st) (hn : st.code = .missing → st.entries = [])
-    (w : Nat) (o : Obj) (cur : CodeId) (named : Bool) {ic : InfoCache} (hic : InfoOK ic) :
-    let r := checkPrevious Cfg.fixed st w o cur named ic
-    Inv sem r.2 ∧ Post sem r.2 cur ∧ r.2.live = st.live := by
-  obtain ⟨f1, f2⟩ := funcCodeInfo_fixed (cur := cur) hic
-  have hw' := wraps_dset hi.wraps w o f2
+untouched, and afterwards the wrapper's directory belongs to the current code object's source. -/
+theorem checkPrevious_spec {cfg : Cfg} (hg : Good cfg) {sem : Src → Nat → R} {st : State R}
+    (hi : Inv cfg sem st) {t : Target} (ht : TOK cfg t) :
+    let r := checkPrevious cfg st t
+    Inv cfg sem r.2 ∧ Post sem (cell r.2 t.dir) t.cur ∧ r.2.live = st.live := by
+  obtain ⟨hic, hk⟩ := ht
+  obtain ⟨f1, f2⟩ := funcCodeInfo_fixed hg.iu (cur := t.cur) hic
+  have hw' := wraps_dset hi.wraps t.w (W := t.wrapper (funcCodeInfo cfg t.cur t.ic).2) ⟨f2, hk⟩
+  have hc := hi.dirs t.dir
   unfold checkPrevious
   split
   · rename_i hs
-    exact ⟨hi, shortcut_post hi hs, rfl⟩
+    exact ⟨hi, shortcut_post hg hi hk hs, rfl⟩
   · simp only [f1]
-    cases hc : st.code with
+    cases hcode : (dirAt st t.dir).code with
     | missing =>
       simp only
       obtain ⟨a, b⟩ := inv_write (sem := sem)
-        (st := { st with wraps := dset w (o, (funcCodeInfo Cfg.fixed cur ic).2) st.wraps })
-        (hn hc) hw' o cur named
+        (st := { st with wraps := dset t.w (t.wrapper (funcCodeInfo cfg t.cur t.ic).2) st.wraps })
+        (fun d _ => hi.dirs d) hw' hk (hc.missing hcode).1
       exact ⟨a, b, rfl⟩
     | unreadable =>
-      simp only [clearWrite]
-      obtain ⟨a, b⟩ := inv_write (sem := sem)
-        (st := { st with wraps := dset w (o, (funcCodeInfo Cfg.fixed cur ic).2) st.wraps, entries := [] })
-        rfl hw' o cur named
+      simp only
+      obtain ⟨a, b⟩ := inv_clearWrite (sem := sem)
+        (st := { st with wraps := dset t.w (t.wrapper (funcCodeInfo cfg t.cur t.ic).2) st.wraps })
+        (fun d _ => hi.dirs d) hw' hk
       exact ⟨a, b, rfl⟩
     | other =>
-      simp only [clearWrite]
-      obtain ⟨a, b⟩ := inv_write (sem := sem)
-        (st := { st with wraps := dset w (o, (funcCodeInfo Cfg.fixed cur ic).2) st.wraps, entries := [] })
-        rfl hw' o cur named
+      simp only
+      obtain ⟨a, b⟩ := inv_clearWrite (sem := sem)
+        (st := { st with wraps := dset t.w (t.wrapper (funcCodeInfo cfg t.cur t.ic).2) st.wraps })
+        (fun d _ => hi.dirs d) hw' hk
       exact ⟨a, b, rfl⟩
     | ok old =>
       simp only
       split
       · rename_i he
         subst he
-        refine ⟨⟨fun h => by simp at h, fun s hs => ?_, hi.writer, fun s o' c hs => ?_, hw'⟩,
-          ⟨hi.stored cur.2 hc, fun s hs => ?_, fun o' c hw => hi.agree cur.2 o' c hc hw, fun h => by simp at h⟩, rfl⟩
-        · simp only [CodeFile.ok.injEq] at hs; subst hs; exact hi.stored cur.2 hc
-        · simp only [CodeFile.ok.injEq] at hs; subst hs; exact hi.agree cur.2 o' c hc
-        · simp only [CodeFile.ok.injEq] at hs; exact hs.symm
-      · simp only [clearWrite]
-        obtain ⟨a, b⟩ := inv_write (sem := sem)
-          (st := { st with wraps := dset w (o, (funcCodeInfo Cfg.fixed cur ic).2) st.wraps, entries := [] })
-          rfl hw' o cur named
+        have hcode' : (cell st t.dir).code = .ok t.cur.2 := hcode
+        refine ⟨⟨hi.dirs, hw'⟩, ⟨hc.stored t.cur.2 hcode', fun s hs => ?_,
+          fun o' k hw => hc.agree t.cur.2 o' k hcode' hw, fun h => ?_⟩, rfl⟩
+        · have hs' : (cell st t.dir).code = .ok s := hs
+          rw [hcode'] at hs'; cases hs'; rfl
+        · have h' : (cell st t.dir).code = .missing := h
+          rw [hcode'] at h'; cases h'
+      · obtain ⟨a, b⟩ := inv_clearWrite (sem := sem)
+          (st := { st with wraps := dset t.w (t.wrapper (funcCodeInfo cfg t.cur t.ic).2) st.wraps })
+          (fun d _ => hi.dirs d) hw' hk
         exact ⟨a, b, rfl⟩
 
-theorem inv_store {sem : Src → Nat → R} {st : State R} (hi : Inv sem st) {cur : CodeId}
-    (hp : Post sem st cur) (a : Nat) :
-    Inv sem { st with entries := dset a (sem cur.2 a) st.entries } := by
-  have key : ∀ a' r, dget a' (dset a (sem cur.2 a) st.entries) = some r → r = sem cur.2 a' := by
+/-! ## one step -/
+
+theorem lookup_spec {st : State R} {w : Nat} {t : Target} (h : lookup st w = some t) :
+    t.w = w ∧ dget w st.wraps = some ⟨t.o, t.key, t.dir, t.ic⟩ ∧
+      dget t.o st.live = some (t.cur, t.named) := by
+  unfold lookup at h
+  split at h
+  · cases h
+  · rename_i W hW
+    split at h
+    · cases h
+    · rename_i cur named hl
+      cases h
+      exact ⟨rfl, hW, hl⟩
+
+theorem lookup_tok {cfg : Cfg} {sem : Src → Nat → R} {st : State R} (hi : Inv cfg sem st) {w : Nat}
+    {t : Target} (h : lookup st w = some t) : TOK cfg t :=
+  hi.wraps w _ (lookup_spec h).2.1
+
+theorem lookup_live {st : State R} {w : Nat} {t : Target} (h : lookup st w = some t) :
+    dget t.o st.live = some (t.cur, t.named) := (lookup_spec h).2.2
+
+/-- Storing the value the current code computes, in a directory that belongs to it. -/
+theorem inv_store {cfg : Cfg} {sem : Src → Nat → R} {st : State R} (hi : Inv cfg sem st) {d : Loc}
+    {cur : CodeId} (hp : Post sem (cell st d) cur) (a : Nat) :
+    Inv cfg sem { st with disk := dset d { dirAt st d with entries := dset a (sem cur.2 a) (dirAt st d).entries } st.disk } := by
+  have key : ∀ a' r, dget a' (dset a (sem cur.2 a) (dirAt st d).entries) = some r → r = sem cur.2 a' := by
     intro a' r h
     by_cases e : a' = a
     · subst e; rw [dget_dset_self] at h; cases h; rfl
     · rw [dget_dset_ne e] at h; exact hp.vals a' r h
-  refine ⟨fun h => absurd h hp.present, fun s hs a' r h => ?_, fun o c hw a' r h => ?_, hi.agree, hi.wraps⟩
-  · rw [hp.code s hs]; exact key a' r h
-  · rw [hp.wr o c hw]; exact key a' r h
+  refine ⟨fun d' => ?_, hi.wraps⟩
+  by_cases e : d' = d
+  · subst e
+    have hc : cell { st with disk := dset d' { dirAt st d' with entries := dset a (sem cur.2 a) (dirAt st d').entries } st.disk } d'
+        = ⟨(cell st d').code, dset a (sem cur.2 a) (dirAt st d').entries, (cell st d').writer⟩ := by
+      simp [cell, dirAt, dget_dset_self]
+    rw [hc]
+    have h0 := hi.dirs d'
+    refine ⟨fun h => absurd h hp.present, fun s hs a' r h => ?_, fun o k hw a' r h => ?_, h0.agree⟩
+    · rw [hp.code s hs]; exact key a' r h
+    · rw [hp.wr o k hw]; exact key a' r h
+  · have hc : cell { st with disk := dset d { dirAt st d with entries := dset a (sem cur.2 a) (dirAt st d).entries } st.disk } d'
+        = cell st d' := by
+      simp [cell, dirAt, dget_dset_ne e]
+    rw [hc]; exact hi.dirs d'
 
-theorem lookup_infoOK {sem : Src → Nat → R} {st : State R} (hi : Inv sem st) {w : Nat} {o : Obj}
-    {cur : CodeId} {named : Bool} {ic : InfoCache} (h : lookup st w = some (o, cur, named, ic)) :
-    InfoOK ic := by
-  unfold lookup at h
-  split at h
-  · cases h
-  · rename_i o' ic' hw
-    split at h
-    · cases h
-    · cases h; exact hi.wraps w _ _ hw
+theorem cellInv_damage {sem : Src → Nat → R} {c : Cell R} (h : CellInv sem c) {dm : Damage}
+    (hd : dm ≠ .delete) : CellInv sem ⟨applyDamage c.code dm, c.entries, c.writer⟩ := by
+  cases hc : c.code with
+  | missing => simpa [applyDamage, ← hc] using h
+  | _ =>
+    cases dm with
+    | delete => exact absurd rfl hd
+    | _ =>
+      exact ⟨fun hm => (by simp [applyDamage] at hm), fun s hs => (by simp [applyDamage] at hs), h.writer,
+        fun s o k hs => (by simp [applyDamage] at hs)⟩
 
-/-- One step of the repaired code (other than deleting `func_code.py`) keeps the invariant and is
-`Correct`. -/
-theorem step_spec {sem : Src → Nat → R} {st : State R} (hi : Inv sem st) (op : Op) (hnd : NoDelete op) :
-    Inv sem (step Cfg.fixed sem st op).2 ∧ Correct sem st op (step Cfg.fixed sem st op).1 := by
-  have hn : st.code = .missing → st.entries = [] := fun h => (hi.missing h).1
+/-- One step of the repaired code (other than deleting `func_code.py`), with the new wrapper's
+writer key the slot of its directory, keeps the invariant and is `Correct`. -/
+theorem step_spec {cfg : Cfg} (hg : Good cfg) {sem : Src → Nat → R} {st : State R} (hi : Inv cfg sem st)
+    (op : Op) (hnd : NoDelete op) (hk : KeyOK cfg op) :
+    Inv cfg sem (step cfg sem st op).2 ∧ Correct sem st op (step cfg sem st op).1 := by
   cases op with
-  | define o k named =>
-    exact ⟨⟨hi.missing, hi.stored, hi.writer, hi.agree, wraps_dset hi.wraps o o infoOK_none⟩, trivial⟩
-  | wrap w o =>
+  | define o k named loc =>
+    exact ⟨⟨hi.dirs, wraps_dset hi.wraps o (W := ⟨o, loc, loc, (none, none)⟩) ⟨infoOK_none, wkey_self hg loc⟩⟩, trivial⟩
+  | wrap w o key dir =>
     simp only [step]
     split
-    · exact ⟨⟨hi.missing, hi.stored, hi.writer, hi.agree, wraps_dset hi.wraps w o infoOK_none⟩, trivial⟩
+    · exact ⟨⟨hi.dirs, wraps_dset hi.wraps w (W := ⟨o, key, dir, (none, none)⟩) ⟨infoOK_none, hk⟩⟩, trivial⟩
     · exact ⟨hi, trivial⟩
   | swap o c =>
     simp only [step]
     split
-    · exact ⟨⟨hi.missing, hi.stored, hi.writer, hi.agree, hi.wraps⟩, trivial⟩
+    · exact ⟨⟨hi.dirs, hi.wraps⟩, trivial⟩
     · exact ⟨hi, trivial⟩
   | call w a =>
     simp only [step, Correct]
     cases hl : lookup st w with
     | none => exact ⟨hi, rfl⟩
-    | some p =>
-      obtain ⟨o, cur, named, ic⟩ := p
-      obtain ⟨h1, h2, _⟩ := checkPrevious_spec hi hn w o cur named (lookup_infoOK hi hl)
+    | some t =>
+      obtain ⟨h1, h2, _⟩ := checkPrevious_spec hg hi (lookup_tok hi hl)
       simp only [isInCache]
-      cases hr : (if (checkPrevious Cfg.fixed st w o cur named ic).1 = true then
-          dget a (checkPrevious Cfg.fixed st w o cur named ic).2.entries else none) with
+      cases hr : (if (checkPrevious cfg st t).1 = true then
+          dget a (dirAt (checkPrevious cfg st t).2 t.dir).entries else none) with
       | some v =>
         simp only
         refine ⟨h1, .inl ?_⟩
@@ -258,125 +464,279 @@ theorem step_spec {sem : Src → Nat → R} {st : State R} (hi : Inv sem st) (op
     simp only [step]
     cases hl : lookup st w with
     | none => exact ⟨hi, trivial⟩
-    | some p =>
-      obtain ⟨o, cur, named, ic⟩ := p
-      exact ⟨(checkPrevious_spec hi hn w o cur named (lookup_infoOK hi hl)).1, trivial⟩
+    | some t => exact ⟨(checkPrevious_spec hg hi (lookup_tok hi hl)).1, trivial⟩
   | clearFn w =>
     simp only [step]
     cases hl : lookup st w with
     | none => exact ⟨hi, trivial⟩
-    | some p =>
-      obtain ⟨o, cur, named, ic⟩ := p
-      obtain ⟨f1, f2⟩ := funcCodeInfo_fixed (cur := cur) (lookup_infoOK hi hl)
-      simp only [f1, clearWrite]
-      exact ⟨(inv_write (sem := sem)
-        (st := { st with wraps := dset w (o, (funcCodeInfo Cfg.fixed cur ic).2) st.wraps, entries := [] })
-        rfl (wraps_dset hi.wraps w o f2) o cur named).1, trivial⟩
-  | clearAll =>
-    exact ⟨⟨fun _ => ⟨rfl, rfl⟩, fun s h => by simp [step] at h, fun o c h => by simp [step] at h,
-      fun s o c h => by simp [step] at h, hi.wraps⟩, trivial⟩
-  | damage d =>
-    cases d with
-    | delete => exact absurd hnd (by simp [NoDelete])
-    | unreadable =>
-      cases hc : st.code <;> simp only [step, applyDamage, hc]
-      · exact ⟨⟨fun _ => hi.missing hc, (fun s h => by cases h), hi.writer, (fun s o c h => by cases h), hi.wraps⟩, trivial⟩
-      all_goals exact ⟨⟨(fun h => by cases h), (fun s h => by cases h), hi.writer, (fun s o c h => by cases h), hi.wraps⟩, trivial⟩
-    | other =>
-      cases hc : st.code <;> simp only [step, applyDamage, hc]
-      · exact ⟨⟨fun _ => hi.missing hc, (fun s h => by cases h), hi.writer, (fun s o c h => by cases h), hi.wraps⟩, trivial⟩
-      all_goals exact ⟨⟨(fun h => by cases h), (fun s h => by cases h), hi.writer, (fun s o c h => by cases h), hi.wraps⟩, trivial⟩
+    | some t =>
+      obtain ⟨hic, hkk⟩ := lookup_tok hi hl
+      obtain ⟨f1, f2⟩ := funcCodeInfo_fixed hg.iu (cur := t.cur) hic
+      simp only [f1]
+      exact ⟨(inv_clearWrite (sem := sem)
+        (st := { st with wraps := dset w (t.wrapper (funcCodeInfo cfg t.cur t.ic).2) st.wraps })
+        (fun d _ => hi.dirs d) (wraps_dset hi.wraps w (W := t.wrapper (funcCodeInfo cfg t.cur t.ic).2) ⟨f2, hkk⟩) hkk).1,
+        trivial⟩
+  | clearAll d =>
+    refine ⟨⟨fun d' => ?_, hi.wraps⟩, trivial⟩
+    by_cases e : d' = d
+    · subst e
+      have : cell (step cfg sem st (.clearAll d')).2 d' = ⟨.missing, [], none⟩ := by
+        simp [step, cell, dirAt, dget_dset_self, dget]
+      rw [this]; exact cellInv_empty sem
+    · have : cell (step cfg sem st (.clearAll d)).2 d' = ⟨(cell st d').code, (cell st d').entries, none⟩ := by
+        simp [step, cell, dirAt, dget_dset_ne e, dget]
+      rw [this]; exact (hi.dirs d').dropWriter
+  | damage d dm =>
+    refine ⟨⟨fun d' => ?_, hi.wraps⟩, trivial⟩
+    by_cases e : d' = d
+    · subst e
+      have : cell (step cfg sem st (.damage d' dm)).2 d' =
+          ⟨applyDamage (cell st d').code dm, (cell st d').entries, (cell st d').writer⟩ := by
+        simp [step, cell, dirAt, dget_dset_self]
+      rw [this]
+      refine cellInv_damage (hi.dirs d') ?_
+      intro h; subst h; exact hnd
+    · have : cell (step cfg sem st (.damage d dm)).2 d' = cell st d' := by
+        simp [step, cell, dirAt, dget_dset_ne e]
+      rw [this]; exact hi.dirs d'
   | fresh =>
-    exact ⟨⟨fun h => ⟨(hi.missing h).1, rfl⟩, hi.stored, fun o c h => by simp [step] at h,
-      fun s o c _ h => by simp [step] at h, fun w o ic h => by simp [step, dget] at h⟩, trivial⟩
+    refine ⟨⟨fun d' => ?_, fun w W h => by simp [step, dget] at h⟩, trivial⟩
+    have : cell (step cfg sem st .fresh).2 d' = ⟨(cell st d').code, (cell st d').entries, none⟩ := by
+      simp [step, cell, dirAt, dget]
+    rw [this]; exact (hi.dirs d').dropWriter
 
-theorem allCorrect_of_inv {sem : Src → Nat → R} : ∀ (ops : List Op) (st : State R), Inv sem st →
-    (∀ op ∈ ops, NoDelete op) → AllCorrect Cfg.fixed sem st ops
-  | [], _, _, _ => trivial
-  | op :: ops, _, hi, hnd =>
-    ⟨(step_spec hi op (hnd op List.mem_cons_self)).2,
-      allCorrect_of_inv ops _ (step_spec hi op (hnd op List.mem_cons_self)).1
-        fun o ho => hnd o (List.mem_cons_of_mem _ ho)⟩
+theorem allCorrect_of_inv {cfg : Cfg} (hg : Good cfg) {sem : Src → Nat → R} :
+    ∀ (ops : List Op) (st : State R), Inv cfg sem st →
+    (∀ op ∈ ops, NoDelete op) → (∀ op ∈ ops, KeyOK cfg op) → AllCorrect cfg sem st ops
+  | [], _, _, _, _ => trivial
+  | op :: ops, _, hi, hnd, hk =>
+    ⟨(step_spec hg hi op (hnd op List.mem_cons_self) (hk op List.mem_cons_self)).2,
+      allCorrect_of_inv hg ops _ (step_spec hg hi op (hnd op List.mem_cons_self) (hk op List.mem_cons_self)).1
+        (fun o ho => hnd o (List.mem_cons_of_mem _ ho)) (fun o ho => hk o (List.mem_cons_of_mem _ ho))⟩
 
-theorem inv_exec {sem : Src → Nat → R} : ∀ (ops : List Op) (st : State R), Inv sem st →
-    (∀ op ∈ ops, NoDelete op) → Inv sem (exec Cfg.fixed sem st ops)
-  | [], _, hi, _ => hi
-  | op :: ops, _, hi, hnd =>
-    inv_exec ops _ (step_spec hi op (hnd op List.mem_cons_self)).1 fun o ho => hnd o (List.mem_cons_of_mem _ ho)
+theorem inv_exec {cfg : Cfg} (hg : Good cfg) {sem : Src → Nat → R} :
+    ∀ (ops : List Op) (st : State R), Inv cfg sem st →
+    (∀ op ∈ ops, NoDelete op) → (∀ op ∈ ops, KeyOK cfg op) → Inv cfg sem (exec cfg sem st ops)
+  | [], _, hi, _, _ => hi
+  | op :: ops, _, hi, hnd, hk =>
+    inv_exec hg ops _ (step_spec hg hi op (hnd op List.mem_cons_self) (hk op List.mem_cons_self)).1
+      (fun o ho => hnd o (List.mem_cons_of_mem _ ho)) (fun o ho => hk o (List.mem_cons_of_mem _ ho))
 
 theorem exec_append (cfg : Cfg) (sem : Src → Nat → R) : ∀ (a b : List Op) (st : State R),
     exec cfg sem st (a ++ b) = exec cfg sem (exec cfg sem st a) b
   | [], _, _ => rfl
   | _ :: a, b, _ => exec_append cfg sem a b _
 
-theorem quiet_noDelete {k : Src} {op : Op} (h : Quiet k op) : NoDelete op := by
-  cases op <;> simp [Quiet, NoDelete] at h ⊢
+theorem quiet_noDelete {k : Src} {d : Loc} {op : Op} (h : QuietAt k d op) : NoDelete op := by
+  cases op <;> simp [QuietAt, NoDelete] at h ⊢
+  rename_i d' dm
+  cases dm <;> simp_all
 
-/-! ## unchanged code keeps its cache -/
+theorem quiet_canonical {k : Src} {d : Loc} {op : Op} (h : QuietAt k d op) : Canonical op := by
+  cases op <;> simp_all [QuietAt, Canonical]
 
-/-- All live functions run code with source `k`, and the stored code (if any) is `k`. -/
-def AllSrc (k : Src) (st : State R) : Prop :=
-  (∀ o c n, dget o st.live = some (c, n) → c.2 = k) ∧ (st.code = .missing ∨ st.code = .ok k)
+/-! ## locations are independent (every version of the code) -/
 
-theorem allSrc_init (k : Src) : AllSrc k (init : State R) :=
+theorem dirAt_checkPrevious_ne (cfg : Cfg) (st : State R) (t : Target) {d : Loc} (h : d ≠ t.dir) :
+    dirAt (checkPrevious cfg st t).2 d = dirAt st d := by
+  unfold checkPrevious
+  split
+  · rfl
+  · cases (dirAt st t.dir).code with
+    | missing => exact dirAt_write_ne cfg _ t _ h
+    | unreadable => exact dirAt_clearWrite_ne cfg _ t _ h
+    | other => exact dirAt_clearWrite_ne cfg _ t _ h
+    | ok old =>
+      simp only
+      split
+      · rfl
+      · exact dirAt_clearWrite_ne cfg _ t _ h
+
+/-- A step that works on another directory (or on none) leaves directory `d` — `func_code.py` and
+the entries — exactly as it was.  For EVERY version of the code. -/
+theorem step_frame (cfg : Cfg) (sem : Src → Nat → R) (st : State R) (op : Op) (d : Loc)
+    (h : opDir st op ≠ some d) : dirAt (step cfg sem st op).2 d = dirAt st d := by
+  cases op with
+  | define o k named loc => rfl
+  | wrap w o key dir => simp only [step]; split <;> rfl
+  | swap o c => simp only [step]; split <;> rfl
+  | call w a =>
+    simp only [step]
+    cases hl : lookup st w with
+    | none => rfl
+    | some t =>
+      have hd : d ≠ t.dir := by
+        intro e; apply h; simp [opDir, hl, e]
+      simp only [isInCache]
+      split
+      · exact dirAt_checkPrevious_ne cfg st t hd
+      · show dirAt { (checkPrevious cfg st t).2 with disk := _ } d = _
+        rw [← dirAt_checkPrevious_ne cfg st t hd]
+        simp [dirAt, dget_dset_ne hd]
+  | check w a =>
+    simp only [step]
+    cases hl : lookup st w with
+    | none => rfl
+    | some t =>
+      have hd : d ≠ t.dir := by
+        intro e; apply h; simp [opDir, hl, e]
+      exact dirAt_checkPrevious_ne cfg st t hd
+  | clearFn w =>
+    simp only [step]
+    cases hl : lookup st w with
+    | none => rfl
+    | some t =>
+      have hd : d ≠ t.dir := by
+        intro e; apply h; simp [opDir, hl, e]
+      exact dirAt_clearWrite_ne cfg _ t _ hd
+  | clearAll d' =>
+    have hd : d ≠ d' := by intro e; apply h; simp [opDir, e]
+    simp [step, dirAt, dget_dset_ne hd]
+  | damage d' dm =>
+    have hd : d ≠ d' := by intro e; apply h; simp [opDir, e]
+    simp [step, dirAt, dget_dset_ne hd]
+  | fresh => rfl
+
+/-! ## the shortcut and the stored code -/
+
+/-- `func_code.py` of directory `d` is absent or holds a source text (it was not truncated). -/
+def Intact (st : State R) (d : Loc) : Prop :=
+  (dirAt st d).code = .missing ∨ ∃ s, (dirAt st d).code = .ok s
+
+theorem intact_init (d : Loc) : Intact (init : State R) d := .inl rfl
+
+theorem code_write (cfg : Cfg) (st : State R) (t : Target) (src : Src) :
+    (dirAt (writeFuncCode cfg st t src) t.dir).code = .ok src := by
+  simp [writeFuncCode, dirAt, dget_dset_self]
+
+theorem code_clearWrite (cfg : Cfg) (st : State R) (t : Target) (src : Src) :
+    (dirAt (clearWrite cfg st t src) t.dir).code = .ok src := code_write cfg _ t src
+
+theorem intact_checkPrevious (cfg : Cfg) (st : State R) (t : Target) (d : Loc) (h : Intact st d) :
+    Intact (checkPrevious cfg st t).2 d := by
+  by_cases e : d = t.dir
+  · subst e
+    unfold checkPrevious
+    split
+    · exact h
+    · cases (dirAt st t.dir).code with
+      | missing => exact .inr ⟨_, code_write cfg _ t _⟩
+      | unreadable => exact .inr ⟨_, code_clearWrite cfg _ t _⟩
+      | other => exact .inr ⟨_, code_clearWrite cfg _ t _⟩
+      | ok old =>
+        simp only
+        split
+        · exact h
+        · exact .inr ⟨_, code_clearWrite cfg _ t _⟩
+  · unfold Intact; rw [dirAt_checkPrevious_ne cfg st t e]; exact h
+
+/-- A step other than a fault at `d` keeps `func_code.py` of `d` absent-or-a-source-text. -/
+theorem intact_step (cfg : Cfg) (sem : Src → Nat → R) (st : State R) (op : Op) (d : Loc)
+    (h : Intact st d) (hn : NoDamageAt d op) : Intact (step cfg sem st op).2 d := by
+  cases op with
+  | define o k named loc => exact h
+  | wrap w o key dir => simp only [step]; split <;> exact h
+  | swap o c => simp only [step]; split <;> exact h
+  | call w a =>
+    simp only [step]
+    cases hl : lookup st w with
+    | none => exact h
+    | some t =>
+      have h1 := intact_checkPrevious cfg st t d h
+      simp only [isInCache]
+      split
+      · exact h1
+      · by_cases e : d = t.dir
+        · subst e
+          unfold Intact at h1 ⊢
+          simpa [dirAt, dget_dset_self] using h1
+        · unfold Intact at h1 ⊢
+          simpa [dirAt, dget_dset_ne e] using h1
+  | check w a =>
+    simp only [step]
+    cases hl : lookup st w with
+    | none => exact h
+    | some t => exact intact_checkPrevious cfg st t d h
+  | clearFn w =>
+    simp only [step]
+    cases hl : lookup st w with
+    | none => exact h
+    | some t =>
+      by_cases e : d = t.dir
+      · subst e; exact .inr ⟨_, code_clearWrite cfg _ t _⟩
+      · unfold Intact; rw [dirAt_clearWrite_ne cfg _ t _ e]; exact h
+  | clearAll d' =>
+    by_cases e : d = d'
+    · subst e; exact .inl (by simp [step, dirAt, dget_dset_self])
+    · unfold Intact at h ⊢; simpa [step, dirAt, dget_dset_ne e] using h
+  | damage d' dm =>
+    have e : d ≠ d' := fun e => hn e.symm
+    unfold Intact at h ⊢; simpa [step, dirAt, dget_dset_ne e] using h
+  | fresh => exact h
+
+theorem intact_exec (cfg : Cfg) (sem : Src → Nat → R) (d : Loc) : ∀ (ops : List Op) (st : State R),
+    Intact st d → (∀ op ∈ ops, NoDamageAt d op) → Intact (exec cfg sem st ops) d
+  | [], _, h, _ => h
+  | op :: ops, st, h, hn =>
+    intact_exec cfg sem d ops _ (intact_step cfg sem st op d h (hn op List.mem_cons_self))
+      fun o ho => hn o (List.mem_cons_of_mem _ ho)
+
+/-! ## unchanged code keeps its cache, per location -/
+
+/-- All live functions run code with source `k`, and the stored code of directory `d` (if any) is `k`. -/
+def AllSrc (k : Src) (d : Loc) (st : State R) : Prop :=
+  (∀ o c n, dget o st.live = some (c, n) → c.2 = k) ∧
+    ((dirAt st d).code = .missing ∨ (dirAt st d).code = .ok k)
+
+theorem allSrc_init (k : Src) (d : Loc) : AllSrc k d (init : State R) :=
   ⟨fun o c n h => by simp [init, dget] at h, .inl rfl⟩
 
-theorem dget_dset_cases {κ ν : Type} [DecidableEq κ] {k k' : κ} {v w : ν} {d : List (κ × ν)}
-    (h : dget k' (dset k v d) = some w) : (k' = k ∧ w = v) ∨ (k' ≠ k ∧ dget k' d = some w) := by
-  by_cases e : k' = k
-  · subst e; rw [dget_dset_self] at h; cases h; exact .inl ⟨rfl, rfl⟩
-  · rw [dget_dset_ne e] at h; exact .inr ⟨e, h⟩
-
-theorem lookup_live {st : State R} {w : Nat} {o : Obj} {cur : CodeId} {named : Bool} {ic : InfoCache}
-    (h : lookup st w = some (o, cur, named, ic)) : dget o st.live = some (cur, named) := by
-  unfold lookup at h
-  split at h
-  · cases h
-  · split at h
-    · cases h
-    · rename_i hl; cases h; exact hl
-
-/-- With the stored code (if any) equal to the current code's source, the check keeps every entry
-and leaves the stored code equal to that source. -/
-theorem checkPrevious_keep {sem : Src → Nat → R} {st : State R} (hi : Inv sem st) (w : Nat) (o : Obj)
-    (cur : CodeId) (named : Bool) {ic : InfoCache} (hic : InfoOK ic)
-    (hc : st.code = .missing ∨ st.code = .ok cur.2) :
-    let r := checkPrevious Cfg.fixed st w o cur named ic
-    r.2.entries = st.entries ∧ r.2.code = .ok cur.2 ∧
-      (st.code = .ok cur.2 → r.1 = true) := by
-  obtain ⟨f1, _⟩ := funcCodeInfo_fixed (cur := cur) hic
+/-- With the stored code of the wrapper's directory (if any) equal to the current code's source, the
+check keeps every entry there and leaves the stored code equal to that source; when it WAS that
+source already, the answer is yes and no directory is written to. -/
+theorem checkPrevious_keep {cfg : Cfg} (hg : Good cfg) {sem : Src → Nat → R} {st : State R}
+    (hi : Inv cfg sem st) {t : Target} (ht : TOK cfg t)
+    (hc : (dirAt st t.dir).code = .missing ∨ (dirAt st t.dir).code = .ok t.cur.2) :
+    let r := checkPrevious cfg st t
+    (dirAt r.2 t.dir).entries = (dirAt st t.dir).entries ∧ (dirAt r.2 t.dir).code = .ok t.cur.2 ∧
+      ((dirAt st t.dir).code = .ok t.cur.2 → r.1 = true ∧ r.2.disk = st.disk) := by
+  obtain ⟨f1, _⟩ := funcCodeInfo_fixed hg.iu (cur := t.cur) ht.1
   unfold checkPrevious
   split
   · rename_i hs
-    have hp := shortcut_post hi hs
-    refine ⟨rfl, ?_, fun _ => rfl⟩
+    have hp := shortcut_post hg hi ht.2 hs
+    refine ⟨rfl, ?_, fun _ => ⟨rfl, rfl⟩⟩
     rcases hc with hc | hc
     · exact absurd hc hp.present
     · exact hc
   · simp only [f1]
     rcases hc with hc | hc
-    · simp [hc, writeFuncCode]
-    · simp [hc]
+    · simp only [hc]
+      refine ⟨?_, code_write cfg _ t _, fun h => by cases h⟩
+      simp [writeFuncCode, dirAt, dget_dset_self]
+    · simp only [hc, if_true]
+      exact ⟨rfl, hc, fun _ => ⟨trivial, trivial⟩⟩
 
-/-- A quiet step keeps `AllSrc` and every entry. -/
-theorem quiet_step {sem : Src → Nat → R} {k : Src} {st : State R} (hi : Inv sem st)
-    (hs : AllSrc k st) {op : Op} (hq : Quiet k op) :
-    AllSrc k (step Cfg.fixed sem st op).2 ∧
-      ∀ a r, dget a st.entries = some r → dget a (step Cfg.fixed sem st op).2.entries = some r := by
+/-- A quiet step keeps `AllSrc` and every entry of directory `d`. -/
+theorem quiet_step {cfg : Cfg} (hg : Good cfg) {sem : Src → Nat → R} {k : Src} {d : Loc} {st : State R}
+    (hi : Inv cfg sem st) (hs : AllSrc k d st) {op : Op} (hq : QuietAt k d op) :
+    AllSrc k d (step cfg sem st op).2 ∧
+      ∀ a r, dget a (dirAt st d).entries = some r → dget a (dirAt (step cfg sem st op).2 d).entries = some r := by
   cases op with
-  | define o k' named =>
-    simp only [Quiet] at hq
+  | define o k' named loc =>
+    simp only [QuietAt] at hq
     subst hq
     refine ⟨⟨fun o' c n h => ?_, hs.2⟩, fun a r h => h⟩
     simp only [step] at h
     rcases dget_dset_cases h with ⟨_, e⟩ | ⟨_, h'⟩
     · cases e; rfl
     · exact hs.1 o' c n h'
-  | wrap w o =>
+  | wrap w o key dir =>
     simp only [step]
     split <;> exact ⟨hs, fun a r h => h⟩
   | swap o c =>
-    simp only [Quiet] at hq
+    simp only [QuietAt] at hq
     simp only [step]
     split
     · refine ⟨⟨fun o' c' n h => ?_, hs.2⟩, fun a r h => h⟩
@@ -385,81 +745,109 @@ theorem quiet_step {sem : Src → Nat → R} {k : Src} {st : State R} (hi : Inv 
       · exact hs.1 o' c' n h'
     · exact ⟨hs, fun a r h => h⟩
   | call w a =>
-    simp only [step]
     cases hl : lookup st w with
-    | none => exact ⟨hs, fun a r h => h⟩
-    | some p =>
-      obtain ⟨o, cur, named, ic⟩ := p
-      have hk : cur.2 = k := hs.1 o cur named (lookup_live hl)
-      have hc : st.code = .missing ∨ st.code = .ok cur.2 := by rw [hk]; exact hs.2
-      obtain ⟨k1, k2, k3⟩ := checkPrevious_keep hi w o cur named (lookup_infoOK hi hl) hc
-      obtain ⟨_, _, k4⟩ := checkPrevious_spec hi (fun h => (hi.missing h).1) w o cur named (lookup_infoOK hi hl)
-      have hall : AllSrc k (checkPrevious Cfg.fixed st w o cur named ic).2 :=
-        ⟨fun o' c n h => hs.1 o' c n (k4 ▸ h), .inr (by rw [k2, hk])⟩
-      simp only [isInCache]
-      cases hr : (if (checkPrevious Cfg.fixed st w o cur named ic).1 = true then
-          dget a (checkPrevious Cfg.fixed st w o cur named ic).2.entries else none) with
-      | some v => simp only; exact ⟨hall, fun a' r h => by rw [k1]; exact h⟩
-      | none =>
-        simp only
-        refine ⟨hall, fun a' r h => ?_⟩
-        show dget a' (dset a _ _) = some r
-        rw [k1]
-        by_cases e : a' = a
-        · subst e
-          -- the entry was there: the stored code was `k` (not missing), so the check said yes and
-          -- the lookup cannot have missed
-          exfalso
-          have hcode : st.code = .ok cur.2 := by
-            rcases hc with hc | hc
-            · rw [(hi.missing hc).1] at h; simp [dget] at h
-            · exact hc
-          simp [k3 hcode, k1, h] at hr
-        · rw [dget_dset_ne e]; exact h
+    | none => simp only [step, hl]; exact ⟨hs, fun a r h => h⟩
+    | some t =>
+      obtain ⟨_, _, k4⟩ := checkPrevious_spec hg hi (lookup_tok hi hl)
+      have hlive : (step cfg sem st (.call w a)).2.live = st.live := by
+        simp only [step, hl, isInCache]
+        split <;> exact k4
+      by_cases e : d = t.dir
+      · subst e
+        have hk : t.cur.2 = k := hs.1 t.o t.cur t.named (lookup_live hl)
+        have hc : (dirAt st t.dir).code = .missing ∨ (dirAt st t.dir).code = .ok t.cur.2 := by
+          rw [hk]; exact hs.2
+        obtain ⟨k1, k2, k3⟩ := checkPrevious_keep hg hi (lookup_tok hi hl) hc
+        simp only [step, hl, isInCache] at hlive ⊢
+        cases hr : (if (checkPrevious cfg st t).1 = true then
+            dget a (dirAt (checkPrevious cfg st t).2 t.dir).entries else none) with
+        | some v =>
+          simp only [hr] at hlive ⊢
+          exact ⟨⟨fun o' c n h => hs.1 o' c n (hlive ▸ h), .inr (by rw [k2, hk])⟩,
+            fun a' r h => by rw [k1]; exact h⟩
+        | none =>
+          simp only [hr] at hlive ⊢
+          refine ⟨⟨fun o' c n h => hs.1 o' c n (hlive ▸ h), .inr ?_⟩, fun a' r h => ?_⟩
+          · simp only [dirAt, dget_dset_self, Option.getD_some]
+            have := k2; simp only [dirAt] at this; rw [this, hk]
+          · simp only [dirAt, dget_dset_self, Option.getD_some]
+            have k1' := k1; simp only [dirAt] at k1'; rw [k1']
+            by_cases e : a' = a
+            · subst e
+              -- the entry was there: the stored code was `k` (not missing), so the check said yes and
+              -- the lookup cannot have missed
+              exfalso
+              have hcode : (dirAt st t.dir).code = .ok t.cur.2 := by
+                rcases hc with hc | hc
+                · have := ((hi.dirs t.dir).missing hc).1
+                  simp only [cell] at this
+                  rw [this] at h; simp [dget] at h
+                · exact hc
+              simp [(k3 hcode).1, k1, h] at hr
+            · rw [dget_dset_ne e]; exact h
+      · have hf := step_frame cfg sem st (.call w a) d (by simp [opDir, hl]; exact fun h => e h.symm)
+        refine ⟨⟨fun o' c n h => hs.1 o' c n (hlive ▸ h), ?_⟩, fun a' r h => ?_⟩
+        · rw [hf]; exact hs.2
+        · rw [hf]; exact h
   | check w a =>
-    simp only [step]
     cases hl : lookup st w with
-    | none => exact ⟨hs, fun a r h => h⟩
-    | some p =>
-      obtain ⟨o, cur, named, ic⟩ := p
-      have hk : cur.2 = k := hs.1 o cur named (lookup_live hl)
-      have hc : st.code = .missing ∨ st.code = .ok cur.2 := by rw [hk]; exact hs.2
-      obtain ⟨k1, k2, _⟩ := checkPrevious_keep hi w o cur named (lookup_infoOK hi hl) hc
-      obtain ⟨_, _, k4⟩ := checkPrevious_spec hi (fun h => (hi.missing h).1) w o cur named (lookup_infoOK hi hl)
-      exact ⟨⟨fun o' c n h => hs.1 o' c n (k4 ▸ h), .inr (by simp only [isInCache]; rw [k2, hk])⟩,
-        fun a' r h => by simp only [isInCache]; rw [k1]; exact h⟩
-  | clearFn w => simp [Quiet] at hq
-  | clearAll => simp [Quiet] at hq
-  | damage d => simp [Quiet] at hq
+    | none => simp only [step, hl]; exact ⟨hs, fun a r h => h⟩
+    | some t =>
+      obtain ⟨_, _, k4⟩ := checkPrevious_spec hg hi (lookup_tok hi hl)
+      have hlive : (step cfg sem st (.check w a)).2.live = st.live := by
+        simp only [step, hl, isInCache]; exact k4
+      by_cases e : d = t.dir
+      · subst e
+        have hk : t.cur.2 = k := hs.1 t.o t.cur t.named (lookup_live hl)
+        have hc : (dirAt st t.dir).code = .missing ∨ (dirAt st t.dir).code = .ok t.cur.2 := by
+          rw [hk]; exact hs.2
+        obtain ⟨k1, k2, _⟩ := checkPrevious_keep hg hi (lookup_tok hi hl) hc
+        simp only [step, hl, isInCache] at hlive ⊢
+        exact ⟨⟨fun o' c n h => hs.1 o' c n (hlive ▸ h), .inr (by rw [k2, hk])⟩,
+          fun a' r h => by rw [k1]; exact h⟩
+      · have hf := step_frame cfg sem st (.check w a) d (by simp [opDir, hl]; exact fun h => e h.symm)
+        refine ⟨⟨fun o' c n h => hs.1 o' c n (hlive ▸ h), ?_⟩, fun a' r h => ?_⟩
+        · rw [hf]; exact hs.2
+        · rw [hf]; exact h
+  | clearFn w => simp [QuietAt] at hq
+  | clearAll d' =>
+    simp only [QuietAt] at hq
+    have hf := step_frame cfg sem st (.clearAll d') d (by simp [opDir]; exact hq)
+    exact ⟨⟨hs.1, by rw [hf]; exact hs.2⟩, fun a r h => by rw [hf]; exact h⟩
+  | damage d' dm =>
+    simp only [QuietAt] at hq
+    have hf := step_frame cfg sem st (.damage d' dm) d (by simp [opDir]; exact hq.1)
+    exact ⟨⟨hs.1, by rw [hf]; exact hs.2⟩, fun a r h => by rw [hf]; exact h⟩
   | fresh =>
     exact ⟨⟨fun o c n h => by simp [step, dget] at h, hs.2⟩, fun a r h => h⟩
 
-theorem quiet_exec {sem : Src → Nat → R} {k : Src} : ∀ (ops : List Op) (st : State R), Inv sem st →
-    AllSrc k st → (∀ op ∈ ops, Quiet k op) →
-    AllSrc k (exec Cfg.fixed sem st ops) ∧
-      ∀ a r, dget a st.entries = some r → dget a (exec Cfg.fixed sem st ops).entries = some r
+theorem quiet_exec {sem : Src → Nat → R} {k : Src} {d : Loc} :
+    ∀ (ops : List Op) (st : State R), Inv Cfg.fixed sem st →
+    AllSrc k d st → (∀ op ∈ ops, QuietAt k d op) →
+    AllSrc k d (exec Cfg.fixed sem st ops) ∧
+      ∀ a r, dget a (dirAt st d).entries = some r →
+        dget a (dirAt (exec Cfg.fixed sem st ops) d).entries = some r
   | [], _, _, hs, _ => ⟨hs, fun _ _ h => h⟩
   | op :: ops, st, hi, hs, hq => by
-    obtain ⟨s1, k1⟩ := quiet_step hi hs (hq op List.mem_cons_self)
+    obtain ⟨s1, k1⟩ := quiet_step good_fixed hi hs (hq op List.mem_cons_self)
     obtain ⟨s2, k2⟩ := quiet_exec ops _
-      (step_spec hi op (quiet_noDelete (hq op List.mem_cons_self))).1 s1
+      (step_spec good_fixed hi op (quiet_noDelete (hq op List.mem_cons_self))
+        (keyOK_of_canonical (quiet_canonical (hq op List.mem_cons_self)))).1 s1
       (fun o ho => hq o (List.mem_cons_of_mem _ ho))
     exact ⟨s2, fun a r h => k2 a r (k1 a r h)⟩
 
-/-- A hit: the stored code is the current code's source and the entry is there ⇒ the call is served
-from the cache; the stored code and the entries are left as they are. -/
-theorem call_hit {sem : Src → Nat → R} {st : State R} (hi : Inv sem st) {w : Nat} {o : Obj}
-    {cur : CodeId} {named : Bool} {ic : InfoCache} {a : Nat} {r : R}
-    (hl : lookup st w = some (o, cur, named, ic)) (hc : st.code = .ok cur.2)
-    (he : dget a st.entries = some r) :
-    (step Cfg.fixed sem st (.call w a)).1 = .value r false ∧
-      (step Cfg.fixed sem st (.call w a)).2.entries = st.entries ∧
-      (step Cfg.fixed sem st (.call w a)).2.code = st.code := by
-  obtain ⟨k1, k2, k3⟩ := checkPrevious_keep hi w o cur named (lookup_infoOK hi hl) (.inr hc)
-  have e : step Cfg.fixed sem st (.call w a) =
-      (.value r false, (checkPrevious Cfg.fixed st w o cur named ic).2) := by
-    simp only [step, hl, isInCache, k3 hc, k1, he, if_true]
+/-- A hit: the stored code of the wrapper's directory is the current code's source and the entry is
+there ⇒ the call is served from the cache; no directory is written to. -/
+theorem call_hit {cfg : Cfg} (hg : Good cfg) {sem : Src → Nat → R} {st : State R} (hi : Inv cfg sem st)
+    {w : Nat} {t : Target} {a : Nat} {r : R}
+    (hl : lookup st w = some t) (hc : (dirAt st t.dir).code = .ok t.cur.2)
+    (he : dget a (dirAt st t.dir).entries = some r) :
+    (step cfg sem st (.call w a)).1 = .value r false ∧
+      (step cfg sem st (.call w a)).2.disk = st.disk := by
+  obtain ⟨k1, _, k3⟩ := checkPrevious_keep hg hi (lookup_tok hi hl) (.inr hc)
+  have e : step cfg sem st (.call w a) = (.value r false, (checkPrevious cfg st t).2) := by
+    simp only [step, hl, isInCache, (k3 hc).1, k1, he, if_true]
   rw [e]
-  exact ⟨rfl, k1, by rw [k2, hc]⟩
+  exact ⟨rfl, (k3 hc).2⟩
 
 end JoblibModel.FuncCode
